@@ -237,7 +237,7 @@ fn from_json(v: &Value) -> Option<Cfg> {
 fn run(ctx: &Ctx) {
     let mem = RefCell::new(Mem18::new());
     ctx.shrink_iters.set(60);
-    let cases = ctx.share(ctx.tier.pick(480, 12_000));
+    let cases = ctx.share(ctx.tier.pick(1_600, 24_000));
     let max_k = ctx.tier.pick(60_000, 400_000);
     ctx.search("stress", "cfg", cases, cfg(max_k), |c, want_case| {
         let v = check(&mem.borrow(), c);
